@@ -206,6 +206,7 @@ def poll_rules(ctx, prog):
     ov = {"expiry": o_expiry, "pipe_poll": o_pipe_poll, "find_earliest_deadline": o_fed,
           "contains_valid_pipe": S.o_bool, "pipe_shutdown": S.o_top_int}
     I = new_interp(prog, overrides=ov)
+    I.widen = False
     p = {x["name"]: ("v", F.gdid(x["did"])) for x in F.params}
     T = ("sym", "T")
     DLV = ("sym", "D")
@@ -215,7 +216,10 @@ def poll_rules(ctx, prog):
         st.mem[p["sources"]] = fs(("addr", ("i", R.SRC, 0)))
         st.mem[("f", ("i", R.SRC, 0), "process")] = fs(A.OBJ_TOK)
         st.mem[("f", ("i", R.SRC, 0), "events")] = fs(I.abs_int(7))      # stale garbage from a previous call
-        st.mem[p["num_sources"]] = fs(1)
+        st.mem[("f", ("i", R.SRC, 1), "process")] = fs("NULL")           # a second source, also with stale events
+        st.mem[("f", ("i", R.SRC, 1), "events")] = fs(I.abs_int(7))
+        st.mem[("f", ("i", R.SRC, 1), "interests")] = fs(0)
+        st.mem[p["num_sources"]] = fs(2)
         st.mem[p["timeout"]] = fs(T)
         st.mem[A.fcell("deadline")] = fs(DLV)
         st.mon["shape"] = label
@@ -224,11 +228,18 @@ def poll_rules(ctx, prog):
     res = I.run(F, entries)
     ctx.stats("E-ABS", I.stats)
     evc = ("f", ("i", R.SRC, 0), "events")
+    evc1 = ("f", ("i", R.SRC, 1), "events")
     seen = set()
     for st, rv in res.exits:
         ex = st.mon.get("expiry")
         pp = st.mon.get("ppoll")
         evv = st.mem.get(evc)
+        other = st.mem.get(evc1)
+        if all_nonneg(rv) and (ex, pp, "other", show(other)) not in seen:
+            seen.add((ex, pp, "other", show(other)))
+            ctx.ob("C08.T3o", "reproc_poll [effective timeout = %s, OS poll = %s] other source" % (ex, pp or "not called"),
+                   "whenever poll returns a count, every other source's stale events have been cleared (only true events are reported)",
+                   other == fs(0), {"other_source_events": show(other)}, nontrivial=True)
         key = (ex, pp, show(rv)[:30], show(evv)[:30])
         if key in seen:
             continue
@@ -237,7 +248,7 @@ def poll_rules(ctx, prog):
         ea = st.mon.get("expiry_args")
         ctx.ob("C08.T2", site + " expiry arguments", "the effective timeout is computed from the caller's timeout and the deadline of the "
                "source found by the earliest-deadline search over the caller's sources",
-               ea is not None and ea[0] == fs(T) and ea[1] == fs(DLV) and st.mon.get("fed_args") == (fs(("addr", ("i", R.SRC, 0))), fs(1)),
+               ea is not None and ea[0] == fs(T) and ea[1] == fs(DLV) and st.mon.get("fed_args") == (fs(("addr", ("i", R.SRC, 0))), fs(2)),
                {"expiry_args": [show(x) for x in ea] if ea else None}, nontrivial=True)
         if ex == "deadline":
             ok = pp is None and rv == fs(1) and evv == fs(I.abs_int(EVD)) and SP.live_mem(st) == [A.OBJ_TOK] \
@@ -406,8 +417,79 @@ def structure_rules(ctx, prog):
            None, nontrivial=True)
 
 
+def expiry_contract(ctx, prog):
+    """T0: what expiry(timeout, deadline) returns, per input class and clock relation (rel facts of the path)"""
+    F = prog.fn("expiry")
+    INF, DL = prog.const("REPROC_INFINITE"), prog.const("REPROC_DEADLINE")
+    p = {x["name"]: ("v", F.gdid(x["did"])) for x in F.params}
+
+    def o_now(I, fn, n, args, st):
+        return [(st, I.TOP_INT)]
+    casts = []
+
+    def cast_hook(I, fn, node, ft, tt, v, st):
+        if fn.name == "expiry" and ("long" in ft) and tt in ("int",):
+            casts.append((node, v))
+    I = new_interp(prog, overrides={"now": o_now})
+    I.hooks_cast.append(cast_hook)
+    entries = []
+    for tclass, tv in (("infinite", fs(INF)), ("finite", I.nonneg())):
+        for dclass, dv in (("none", fs(INF)), ("set", frozenset(x for x in I.TOP_INT if x != INF))):
+            st = State()
+            st.mon["nofail"] = True
+            st.mem[p["timeout"]] = tv
+            st.mem[p["deadline"]] = dv
+            st.mon["case"] = (tclass, dclass)
+            entries.append(st)
+    res = I.run(F, entries)
+    ctx.stats("E-ABS", I.stats)
+    seen = set()
+    for st, rv in res.exits:
+        tclass, dclass = st.mon["case"]
+        rel = st.mon.get("rel", frozenset())
+        expired = any(f[0] == "<=" and f[1] == p["deadline"] for f in rel)       # deadline <= now
+        before = any(f[0] == "<" and f[2] == p["deadline"] for f in rel)         # now < deadline
+        key = (tclass, dclass, expired, before, show(rv)[:40])
+        if key in seen:
+            continue
+        seen.add(key)
+        if dclass == "none":
+            ok = rv == (fs(INF) if tclass == "infinite" else I.nonneg())
+            what = "without a deadline the caller's timeout is the effective timeout"
+        elif expired:
+            ok = rv == fs(DL)
+            what = "a deadline that has passed yields the 'expired' marker (so poll reports it at once, every time)"
+        else:
+            ok = DL not in rv and INF not in rv and all(atom_interval(a)[0] >= 0 for a in rv)
+            what = "before the deadline the effective timeout is a non-negative number: the time left, or the smaller of it and the caller's timeout"
+        ctx.ob("C08.T0", "expiry [timeout %s, deadline %s, %s]" % (tclass, dclass, "deadline <= now" if expired else "now < deadline" if before else "no clock read"),
+               what, ok, {"returns": show(rv)[:80]}, nontrivial=True)
+    ctx.floor("C08.T0", 5)
+    bad = [(n, v) for n, v in casts if any(atom_interval(a)[0] < 0 for a in v)]
+    ctx.ob("C08.T0c", "expiry: narrowing cast", "the 64-bit time difference is narrowed to int only where it is known to be positive (after the "
+           "64-bit comparison with the clock), so a long-expired deadline cannot wrap into a future one", not bad and casts,
+           {"casts": [expr_str(n)[:50] for n, v in casts], "possibly_negative": [expr_str(n)[:50] for n, v in bad]}, nontrivial=True)
+
+
+def single_poll_rule(ctx, prog):
+    """the OS poll is issued once per pipe_poll call: a retry loop would restart the full timeout"""
+    F = prog.fn("pipe_poll")
+    from . import c02
+    I = new_interp(prog)
+    I.hooks_call.append(c02.count_hook("poll"))
+    st = State()
+    st.mon["nofail"] = True
+    res = I.run(F, [st])
+    ctx.stats("E-ABS", I.stats)
+    worst = max([s.mon.get("n_poll", 0) for s, rv in res.exits] + [0])
+    ctx.ob("C08.T2p", "pipe_poll", "a bounded wait calls poll(2) at most once with the given timeout (an interrupted call is reported, not "
+           "restarted with the full timeout again)", worst == 1, {"max_poll_calls_on_a_path": worst}, nontrivial=True)
+
+
 def check(ctx):
     prog = ctx.prog("posix-mt")
+    expiry_contract(ctx, prog)
+    single_poll_rule(ctx, prog)
     sentinel_rule(ctx, prog)
     poll_rules(ctx, prog)
     wait_rules(ctx, prog)
